@@ -276,6 +276,28 @@ def _slots(repo, rep):
               "scope, rcontext) that renders the fill-slot element in the "
               "scope it is given", construct="fill-function",
               where=L.where(use))
+    # what the caller stores in its own scope is taken back after the call
+    stores = [i for i, (it, c_, p_) in enumerate(lin.rows)
+              if isinstance(it, A.Frag) and
+              L.frag_find(it, "_S = econtext[_K] = _D((_N,))")]
+    callx = lin.index(lambda it: isinstance(it, A.Frag) and bool(
+        L.frag_find(it, "__m(__stream, econtext.copy(), rcontext, "
+                        "__i18n_domain, __i18n_context, target_language)",
+                    "expr")))
+    cleanup = [i for i, (it, c_, p_) in enumerate(lin.rows)
+               if i > callx >= 0 and isinstance(it, A.Frag) and (
+                   L.frag_find(it, "del econtext[_K]") or
+                   L.frag_find(it, "econtext.pop(_K, _X)", "expr") or
+                   L.frag_find(it, "econtext[_K] = _B") or
+                   L.frag_find(it, "_S.remove(_N)", "expr"))]
+    rep.check(bool(stores) and bool(cleanup), "R09.2", use.qualname,
+              "the fillers a use-macro element stores in the caller's scope "
+              "are removed (or the previous binding restored) after the "
+              "macro call, so that a fill-slot which names no slot is "
+              "discarded and cannot reach a later macro use",
+              construct="slot-store-cleanup", where=L.where(use),
+              detail="%d store fragment(s), %d clean-up fragment(s) after "
+                     "the call" % (len(stores), len(cleanup)))
     # fillers are defined before the macro is called
     call = lin.index(lambda it: isinstance(it, A.Frag) and bool(
         L.frag_find(it, "__m(__stream, econtext.copy(), rcontext, "
